@@ -173,6 +173,152 @@ def targeted_network(rng, cplx):
     return tn, kinds, outs
 
 
+def _nzval(rng, cplx):
+    while True:
+        v = complex(rng.randint(-2, 3), rng.randint(-1, 1)) if cplx else float(rng.randint(-2, 3))
+        if v != 0:
+            return v
+
+
+GATE1_KINDS = ["diag", "diag", "antidiag", "antidiag", "antidiag", "perm", "dense", "rand", "proj", "ident"]
+GATE2_KINDS = ["cz", "cx", "cx_rev", "swap", "anti_x_diag", "diag_x_anti", "anti_x_anti", "dense"]
+
+
+def gate1(rng, d, cplx, kind):
+    """one-wire operator as a (d, d) array indexed [out, in] with a planted structure"""
+    a = np.zeros((d, d), dtype=complex if cplx else float)
+    if kind == "diag":
+        for k in range(d):
+            a[k, k] = _nzval(rng, cplx)
+    elif kind == "antidiag":
+        for k in range(d):
+            a[k, d - 1 - k] = _nzval(rng, cplx)
+    elif kind == "perm":  # generalised permutation (for d = 2: diagonal or antidiagonal)
+        perm = list(range(d))
+        rng.shuffle(perm)
+        for k in range(d):
+            a[perm[k], k] = _nzval(rng, cplx)
+    elif kind == "dense":
+        for k in range(d * d):
+            a.flat[k] = _nzval(rng, cplx)
+    elif kind == "rand":
+        a = rand_entries(rng, d * d, cplx).reshape(d, d).astype(a.dtype)
+    elif kind == "proj":  # a single non-zero entry: lone columns on both legs
+        a[rng.randrange(d), rng.randrange(d)] = _nzval(rng, cplx)
+    else:
+        a = np.eye(d, dtype=a.dtype)
+    return a
+
+
+def gate2(rng, d, cplx, kind):
+    """two-wire operator as a (d, d, d, d) array indexed [out0, out1, in0, in1]"""
+    if kind == "dense":
+        a = np.array([_nzval(rng, cplx) for _ in range(d ** 4)]).reshape((d,) * 4)
+    elif kind == "cz":  # diagonal in (out0, in0) and in (out1, in1)
+        a = np.zeros((d,) * 4, dtype=complex if cplx else float)
+        for i in range(d):
+            for j in range(d):
+                a[i, j, i, j] = _nzval(rng, cplx)
+    elif kind in ("cx", "cx_rev"):  # controlled cyclic shift / reversal of the target (d = 2: CNOT)
+        a = np.zeros((d,) * 4, dtype=complex if cplx else float)
+        for c in range(d):
+            for t in range(d):
+                t2 = t if c == 0 else (d - 1 - t if rng.random() < 0.7 or d == 2 else (t + c) % d)
+                a[c, t2, c, t] = _nzval(rng, cplx) if rng.random() < 0.3 else 1.0
+        if kind == "cx_rev":
+            a = a.transpose(1, 0, 3, 2)
+    elif kind == "swap":
+        a = np.zeros((d,) * 4, dtype=complex if cplx else float)
+        for i in range(d):
+            for j in range(d):
+                a[j, i, i, j] = 1.0
+    else:
+        ka, kb = {"anti_x_diag": ("antidiag", "diag"), "diag_x_anti": ("diag", "antidiag"), "anti_x_anti": ("antidiag", "antidiag")}[kind]
+        a = np.einsum("ac,bd->abcd", gate1(rng, d, cplx, ka), gate1(rng, d, cplx, kb))
+    return a
+
+
+def wire_network(rng, cplx, big=False):
+    """operator-like networks: 1-3 wires of one dimension d, a sequence of structured one- and two-wire tensors acting
+    on them ('gates': diagonal, antidiagonal, generalised permutation, controlled, swap, lone entry, dense), every
+    index order on each tensor, the tensors stored in time order, reversed or shuffled (the passes pop their queue from
+    the end: this decides who is visited first), each wire end open (an outer label: operators / unitaries have them
+    on BOTH ends of a wire), closed by a vector / basis vector, or joined to the other end (trace).
+    Returns (tn, kinds, true outer labels, inner labels)."""
+    import quimb.tensor as qtn
+
+    d = rng.choice([2, 2, 2, 3])
+    nw = rng.choice([1, 1, 2, 2, 3])
+    lmax = (10 if d == 2 else 6) if big else (7 if d == 2 else 5)
+    cur = {w: f"w{w}_0" for w in range(nw)}
+    first = dict(cur)
+    nlab = nw
+    ts, kinds = [], []
+    for g in range(rng.randint(1, 6)):
+        two = nw >= 2 and rng.random() < 0.3
+        if nlab + (2 if two else 1) > lmax:
+            break
+        ws = rng.sample(range(nw), 2) if two else [rng.randrange(nw)]
+        ins = [cur[w] for w in ws]
+        for w in ws:
+            cur[w] = f"w{w}_{g + 1}"
+        nlab += len(ws)
+        new = [cur[w] for w in ws]
+        if two:
+            kind = rng.choice(GATE2_KINDS)
+            arr = gate2(rng, d, cplx, kind)
+        else:
+            kind = rng.choice(GATE1_KINDS)
+            arr = gate1(rng, d, cplx, kind)
+        inds = new + ins
+        layout = rng.choice(["out_in", "in_out", "shuffled"])
+        order = list(range(len(inds)))
+        if layout == "in_out":
+            order = order[len(ws):] + order[:len(ws)]
+        elif layout == "shuffled":
+            rng.shuffle(order)
+        ts.append(qtn.Tensor(np.ascontiguousarray(arr.transpose(order)), tuple(inds[k] for k in order), tags=[f"T{len(ts)}"]))
+        kinds.append("wire:" + kind)
+    if not ts:
+        ts.append(qtn.Tensor(gate1(rng, d, cplx, "antidiag"), ("w0_1", "w0_0"), tags=["T0"]))
+        cur[0] = "w0_1"
+        kinds.append("wire:antidiag")
+    remap = {}
+    for w in range(nw):
+        if cur[w] == first[w]:
+            continue  # untouched wire: no label at all
+        ends = rng.choice([("open", "open"), ("open", "open"), ("open", "open"), ("vec", "open"), ("basis", "open"), ("open", "vec"),
+                           ("open", "basis"), ("vec", "vec"), ("basis", "basis"), ("trace", "trace")])
+        if ends[0] == "trace":
+            n_on = sum(1 for t in ts if first[w] in t.inds or cur[w] in t.inds)
+            if n_on >= 2:
+                remap[cur[w]] = first[w]
+            continue
+        for lab, e in ((first[w], ends[0]), (cur[w], ends[1])):
+            if e == "open":
+                continue
+            v = np.zeros(d, dtype=complex if cplx else float)
+            if e == "basis":
+                v[rng.randrange(d)] = _nzval(rng, cplx)
+            else:
+                for k in range(d):
+                    v[k] = _nzval(rng, cplx)
+            ts.append(qtn.Tensor(v, (lab,), tags=[f"T{len(ts)}"]))
+            kinds.append("wire:end_" + e)
+    storage = rng.choice(["time", "reversed", "shuffled"])
+    if storage == "reversed":
+        ts = ts[::-1]
+    elif storage == "shuffled":
+        rng.shuffle(ts)
+    tn = qtn.TensorNetwork(ts)
+    if remap:
+        tn.reindex_(remap)
+    cnt = label_counts(tn)
+    outer = tuple(i for i in cnt if cnt[i] == 1)
+    inner = tuple(i for i in cnt if cnt[i] > 1)
+    return tn, kinds + ["storage:" + storage], outer, inner
+
+
 def label_counts(tn):
     c = {}
     for t in tn.tensors:
@@ -423,6 +569,110 @@ class Collector:
         self.info[cid] = desc
 
 
+TRACE_HEADER = ("From Coq Require Import ZArith QArith Arith List Bool.\nFrom QV Require Import C04.Model.\nImport ListNotations.\n"
+                "Close Scope Q_scope.\n")
+
+
+def trace_collector(ctx):
+    tc = getattr(ctx, "_c04_traces", None)
+    if tc is None:
+        tc = ctx._c04_traces = Collector()
+    return tc
+
+
+def check_traces(ctx, name, desc, spy, outs, tag=""):
+    """decision trace of the structure passes made during one (entry) pass on one network.
+    (a) direct, independent of the model: the side condition of the rewrite theorems - the label that is flipped /
+        removed / sliced is SUMMED, i.e. not one of the outer labels (C04_flip_sound, C04_diag_reduce_sound,
+        C04_column_reduce_sound are false without it) -> concrete violation <entry pass>:trace:output_label_*;
+    (b) exact correspondence, evaluated in Coq: the decisions are those of Model.ag_decisions / dr_choose / cr_choose
+        (theorems C04_antidiag_pass_flips_spec, C04_antidiag_gauge_pass_sound, C04_diagonal_reduce_choice_sound)."""
+    key = name.split("[")[0]
+    outs_set = set(outs)
+    if spy.untraced:
+        ctx.bump("trace:untraced_events")
+        ctx._c04_untraced = getattr(ctx, "_c04_untraced", 0) + spy.untraced
+    tcol = trace_collector(ctx)
+    flagged = set()
+    for ci, call in enumerate(spy.calls):
+        kind, steps = call["pass"], call["steps"]
+        if not steps:
+            continue
+        ctx.bump("trace:" + spy.OWNER[kind])
+        acted = [st for st in steps if st[2] not in (None, False)]
+        ctx.count((desc["net"], name, json.dumps(desc["args"], default=str), "trace", ci), bool(acted))
+        if kind == "ag":
+            touched, word = [st[2] for st in acted], "flipped"
+            if any(st[2] is None for st in steps):
+                ctx.bump("trace:antidiag:left_alone")
+            if any(st[2] is None and (st[0] not in outs_set or st[1] not in outs_set) for st in steps):
+                ctx.bump("trace:antidiag:left_alone_because_already_flipped")
+        elif kind == "dr":
+            touched, word = [st[2][0] for st in acted], "removed"
+        else:
+            touched, word = [st[0] for st in acted], "sliced"
+        bad = [x for x in touched if x in outs_set]
+        d = dict(desc)
+        d["trace"] = {"pass": spy.OWNER[kind], "call": ci, "steps": steps}
+        if bad and (kind, word) not in flagged:
+            flagged.add((kind, word))
+            ctx.violation(f"{key}:trace:output_label_{word}",
+                          f"{name}{tag}: {spy.OWNER[kind]} {word} the outer label(s) {bad} (outer labels {sorted(outs_set)}); "
+                          f"decisions of that call: {steps}", d)
+        namer = tm.Namer()
+        ol = tm.nlist([namer(o) for o in outs])
+        if kind == "cr":
+            hist = tm.nlist([namer(st[0]) for st in steps])
+            obs = "[" + "; ".join("true" if st[2] else "false" for st in steps) + "]"
+            expr = f"cr_trace_ok {ol} {hist} {obs}"
+        else:
+            hist = "[" + "; ".join(f"({namer(st[0])}%nat, {namer(st[1])}%nat)" for st in steps) + "]"
+            if kind == "ag":
+                obs = "[" + "; ".join("None" if st[2] is None else f"Some {namer(st[2])}%nat" for st in steps) + "]"
+                expr = f"ag_trace_ok {ol} {hist} {obs}"
+            else:
+                obs = "[" + "; ".join("None" if st[2] is None else f"Some ({namer(st[2][0])}%nat, {namer(st[2][1])}%nat)"
+                                      for st in steps) + "]"
+                expr = f"dr_trace_ok {ol} {hist} {obs}"
+        tcol.add(d, expr)
+
+
+def trace_correspondence(ctx):
+    """stage: all collected decision traces against the Coq model (exact)."""
+    tcol = trace_collector(ctx)
+    failed, errors = robust_coq_cases(ctx, "traces", TRACE_HEADER, tcol.cases, 1500)
+    for path, err in errors:
+        ctx.broken_obligation("correspondence:traces:" + path.split("/")[-1], err)
+    if getattr(ctx, "_c04_untraced", 0):
+        ctx.broken_obligation("trace:structure_passes", f"{ctx._c04_untraced} finder / action events of the structure passes could not be "
+                              "attributed to a tensor of the network (the tracing spy no longer matches the code)")
+    seen = set()
+    for c in failed:
+        d = tcol.info[c]
+        k = d["trace"]["pass"]
+        if k in seen:
+            continue
+        seen.add(k)
+        ctx.broken_obligation(f"correspondence:trace:{k}",
+                              f"decisions of {k} (during {d['pass']} {d['args']}, outer labels {d['outs']}) differ from the model: "
+                              f"{d['trace']['steps']}")
+        # direct oracle on that very case: does the pass change the denoted tensor?
+        try:
+            tn = net_load(d["tensors"], d.get("exponent", 0))
+            fn = {"antidiag_gauge": tn.antidiag_gauge, "diagonal_reduce": tn.diagonal_reduce, "column_reduce": tn.column_reduce}[k]
+            with warnings.catch_warnings():
+                warnings.simplefilter("ignore")
+                after = fn(output_inds=tuple(d["outs"]))
+            ok, msg = np_same(tm.qtn_tensors(tn), float(np.real(tn.exponent)), tm.qtn_tensors(after), float(np.real(after.exponent)),
+                              tuple(d["outs"]))
+            if not ok:
+                ctx.violation(f"{k}:value", f"{k}(output_inds={d['outs']}) changes the denoted tensor ({msg}); its decisions differ from the "
+                              f"model: {d['trace']['steps']}", d)
+        except Exception:
+            pass
+    ctx.extra["coq_cases_traces"] = len(tcol.cases)
+
+
 def run_pass(ctx, col, netid, tn0, outs, name, args, explicit, tag=""):
     """apply one pass to a copy of tn0 and register the exact check (or decide with the oracle)."""
     before = tm.qtn_tensors(tn0)
@@ -448,6 +698,8 @@ def run_pass(ctx, col, netid, tn0, outs, name, args, explicit, tag=""):
     desc["_zero_spread"] = spy.zero_spread
     desc["_flip_repeated"] = spy.flip_repeated
     ctx.count((netid, name, json.dumps(args, default=str)), changed(tn0, after_tn))
+    if spy.calls or spy.untraced:
+        check_traces(ctx, name, desc, spy, outs, tag)
     # outer labels must survive with their sizes
     dims0 = {i: tn0.ind_size(i) for i in outs}
     for o in outs:
@@ -633,6 +885,48 @@ def integer_stream(ctx, col):
         if nt >= 1:
             new = e0 - nt * rng.choice([0, 1, 2, -1])
             run_pass(ctx, col, netid, tn, outs, "distribute_exponent", {"new": float(new)}, explicit)
+
+
+WIRE_SEQS = ["A", "AD", "DA", "ADC", "CAD", "ADCR", "RADC", "DARC", "ADCRS"]
+
+
+def wire_stream(ctx, col):
+    """operator / circuit-like integer networks (wire_network) through the structure passes: exact value check in Coq,
+    decision traces against the model, outer labels on both ends of a wire, explicit outer labels that are bonds."""
+    rng = ctx.rng
+    for n in range(ctx.n(40, 400)):
+        cplx = rng.random() < 0.35
+        tn, kinds, outer, inner = wire_network(rng, cplx, big=rng.random() < 0.15)
+        mode = rng.choice(["inferred", "inferred", "inferred_by_pass", "inferred_by_pass", "outer_plus_bond", "subset"])
+        infer = False
+        if mode == "inferred":
+            outs, explicit = outer, False
+        elif mode == "inferred_by_pass":
+            outs, explicit, infer = outer, False, True
+        elif mode == "outer_plus_bond" and inner:
+            outs, explicit = outer + tuple(rng.sample(inner, rng.randint(1, min(2, len(inner))))), True
+        elif mode == "subset":
+            labels = list(outer + inner)
+            outs, explicit = tuple(rng.sample(labels, rng.randint(0, min(3, len(labels))))), True
+        else:
+            outs, explicit = outer, False
+        e0 = rng.choice([0, 0, 0, 1, -2])
+        tn.exponent = e0
+        netid = f"w{n}"
+        ctx.bump("net:wire")
+        ctx.bump("net:wire:outs=" + mode)
+        for kd in kinds:
+            ctx.bump("tensor:" + kd)
+        if n < 2:
+            ctx.sample({"net": netid, "tensors": [list(t.inds) for t in tn.tensors], "kinds": kinds, "outs": list(outs),
+                        "explicit": explicit, "exponent": e0})
+        base = {"infer": True} if infer else {}
+        for name in ("antidiag_gauge", "diagonal_reduce", "column_reduce", "rank_simplify"):
+            run_pass(ctx, col, netid, tn, outs, name, dict(base), explicit)
+        order = "".join(rng.choice("ADC") for _ in range(rng.randint(2, 5)))
+        run_pass(ctx, col, netid, tn, outs, "structure_passes[shared_cache]", dict(base, order=order), explicit)
+        for seq in rng.sample(WIRE_SEQS, 3 if ctx.quick else 5):
+            run_pass(ctx, col, netid, tn, outs, "full_simplify", dict(base, seq=seq), explicit)
 
 
 PYTH = [(3, 4, 5), (1, 2, 2, 3), (2, 3, 6, 7), (1, 4, 8, 9), (4, 4, 7, 9), (2, 6, 9, 11), (6, 8, 10), (5, 12, 13)]
@@ -1278,6 +1572,18 @@ def o_rank_simplify(tn, a):
     return tn.rank_simplify(equalize_norms=a["eq"], check_zero=a.get("check_zero", False), output_inds=a.get("outs"))
 
 
+def o_antidiag_gauge(tn, a):
+    return tn.antidiag_gauge(output_inds=a.get("outs"))
+
+
+def o_diagonal_reduce(tn, a):
+    return tn.diagonal_reduce(output_inds=a.get("outs"))
+
+
+def o_column_reduce(tn, a):
+    return tn.column_reduce(output_inds=a.get("outs"))
+
+
 def o_equalize_norms(tn, a):
     return tn.equalize_norms(value=a["value"])
 
@@ -1322,6 +1628,7 @@ ORACLE = {
     "full_simplify": o_full_simplify, "rank_simplify": o_rank_simplify, "equalize_norms": o_equalize_norms,
     "insert_gauge": o_insert_gauge, "strip_exponent": o_strip_exponent, "distribute_exponent": o_distribute_exponent,
     "fuse_squeeze": o_fuse_squeeze, "multiply": o_multiply,
+    "antidiag_gauge": o_antidiag_gauge, "diagonal_reduce": o_diagonal_reduce, "column_reduce": o_column_reduce,
 }
 
 
@@ -1347,6 +1654,8 @@ def oracle_pass(ctx, netid, tn0, name, args, outs, is_tree, zero=False, mult_fac
                               f"{name} {args} raised {type(e).__name__}: {str(e)[:120]} on a valid network", desc)
             return None
     ctx.count((netid, name, json.dumps(args, default=str)), changed(tn0, after))
+    if spy.calls or spy.untraced:
+        check_traces(ctx, name, desc, spy, outs)
     if spy.summed_outputs:
         tids, lost = spy.summed_outputs[0]
         ctx.violation(f"{key}:trace:outer_label_summed", f"{name} {args} planned the contraction of tensors {tids} summing the declared outer "
@@ -1499,6 +1808,67 @@ def oracle_stream(ctx):
         x = rng.choice([0.0, -2.5, 3.0, 1e-3])
         sp = rng.choice([1, 8, "all"])
         P("multiply", {"x": x, "spread": sp}, mult_factor=x)
+
+
+CIRC_1Q = ["H", "X", "X", "Y", "Z", "Z", "S", "T", "RZ", "RX", "RY", "X_1_2"]
+CIRC_2Q = ["CNOT", "CX", "CZ", "CY", "SWAP", "ISWAP", "RZZ"]
+
+
+def circuit_stream(ctx):
+    """TEST (numpy oracle at 1e-9, not a theorem): networks built by quimb's own Circuit - the unitary (outer labels k* AND
+    b*: both ends of every wire), the state, and the state with basis bras on some qubits (partial amplitude) - of small
+    random circuits mixing diagonal (Z, S, T, RZ, CZ, RZZ), antidiagonal (X, Y), permutation-like (CNOT, SWAP, ISWAP)
+    and dense (H, RX, RY) gates, through the structure passes and full_simplify with and without explicit outer labels,
+    for every lazy gate layout ('contract' option of apply_gate)."""
+    import quimb.tensor as qtn
+
+    rng = ctx.rng
+    for n in range(ctx.n(14, 150)):
+        nq = rng.choice([1, 2, 2, 3])
+        circ = qtn.Circuit(nq)
+        contract = rng.choice([False, False, "split-gate", "swap-split-gate", "auto-split-gate", True])
+        glist = []
+        for _ in range(rng.randint(2, 8)):
+            if nq >= 2 and rng.random() < 0.35:
+                g = rng.choice(CIRC_2Q)
+                q = rng.sample(range(nq), 2)
+                params = [round(rng.uniform(-3, 3), 3)] if g == "RZZ" else []
+            else:
+                g = rng.choice(CIRC_1Q)
+                q = [rng.randrange(nq)]
+                params = [round(rng.uniform(-3, 3), 3)] if g in ("RZ", "RX", "RY") else []
+            try:
+                circ.apply_gate(g, *params, *q, contract=contract)
+                glist.append([g, params, q])
+            except Exception:
+                ctx.bump("circuit:gate_not_available:" + g)
+        which = rng.choice(["uni", "uni", "uni", "psi", "amp"])
+        if which == "uni":
+            tn = circ.get_uni()
+        else:
+            tn = circ.psi.copy()
+            if which == "amp":
+                for q in rng.sample(range(nq), rng.randint(1, nq)):
+                    v = np.zeros(2)
+                    v[rng.randrange(2)] = 1.0
+                    tn = tn | qtn.Tensor(v, (f"k{q}",), tags=["BRA"])
+        tn = qtn.TensorNetwork(list(tn.tensors))  # plain network, no 1D / vector structure
+        if rng.random() < 0.3:
+            ts = list(tn.tensors)
+            rng.shuffle(ts)
+            tn = qtn.TensorNetwork(ts)
+        outs = tuple(tn.outer_inds())
+        netid = f"c{n}"
+        ctx.bump("circuit:" + which)
+        ctx.bump(f"circuit:contract={contract}")
+        if n < 1:
+            ctx.sample({"net": netid, "circuit": glist, "which": which, "outs": list(outs), "contract": str(contract)})
+        for given in ((list(outs), None) if rng.random() < 0.5 else (list(outs),)):
+            for name in ("antidiag_gauge", "diagonal_reduce", "column_reduce"):
+                oracle_pass(ctx, netid, tn, name, {"outs": given, "circuit": glist}, outs, False)
+            for seq in ["A", "AD", "ADCR"] + rng.sample(["ADCRS", "DARC", "ADCRSL", "CAD"], 1):
+                oracle_pass(ctx, netid, tn, "full_simplify", {"seq": seq, "eq": rng.choice([False, False, True]), "outs": given,
+                                                              "circuit": glist}, outs, False)
 
 
 def hyper_output_loop_net(rng, nprng, cplx):
@@ -1738,13 +2108,16 @@ def tolerance_pass_stream(ctx):
             desc = {"net": netid, "pass": name, "args": args, "outs": list(outs), "explicit_outs": True, "exponent": e0,
                     "stream": "tolerance", "level": level, "tensors": net_dump(before)}
             key = name
+            spy = spy_multiply()
             try:
-                with warnings.catch_warnings():
+                with warnings.catch_warnings(), spy:
                     warnings.simplefilter("ignore")
                     after, _ = PASSES[name](tn.copy(), tuple(outs), args)
             except Exception as e:
                 ctx.violation(f"{key}:raised:{type(e).__name__}", f"{name} {args} raised {type(e).__name__}: {str(e)[:100]}", desc)
                 continue
+            if spy.calls or spy.untraced:
+                check_traces(ctx, name, desc, spy, outs)
             ctx.count((netid, name, json.dumps(args)), changed(tn, after))
             try:
                 ref = np_dense(before, outs, e0)
@@ -1981,6 +2354,7 @@ def correspondence(ctx):
     col = Collector()
     corpus_stream(ctx, col)
     integer_stream(ctx, col)
+    wire_stream(ctx, col)
     exponent_stream(ctx, col)
     failed, errors = robust_coq_cases(ctx, "passes", tm.HEADER + "From QV Require Import C04.Rules.\n", col.cases, 180)
     for path, err in errors:
@@ -2021,9 +2395,10 @@ def run(ctx):
 
     walls = {}
     t = time.time()
-    ctx.check_props(["C04/Model.vo", "C04/Rules.vo", "C04/Proofs.vo", "C04/Finders.vo", "C04/Props.v"])
+    ctx.check_props(["C04/Model.vo", "C04/Rules.vo", "C04/Proofs.vo", "C04/Finders.vo", "C04/Passes.vo", "C04/Props.v"])
     walls["props"] = round(time.time() - t, 1)
-    for fn in (finder_stream, correspondence, tolerance_pass_stream, gauged_stream, oracle_stream, special_oracle_nets):
+    for fn in (finder_stream, correspondence, tolerance_pass_stream, gauged_stream, oracle_stream, special_oracle_nets,
+               circuit_stream, trace_correspondence):
         t = time.time()
         ctx.stage(fn)
         walls[fn.__name__] = round(time.time() - t, 1)
